@@ -30,7 +30,7 @@ RULE = ("random histories (20-120 operations: fire plain / extra / time-step, se
         "every public edit applied to one, snapshot + results of the other and of a set built afterwards compared")
 MUST_OBSERVE = ["histories", "ops", "op_fire", "op_zero", "op_elev", "op_danger", "op_model", "ops_raised", "results_compared",
                 "pool_snapshots", "zero_changes_accepted", "thread_rounds", "thread_results_compared", "thread_switch_sites",
-                "thread_yields_injected", "shared_objects_in_pool", "warning_emitting_ops", "op_mutate", "isolation_sets",
+                "thread_yields_injected", "shared_objects_in_pool", "warning_emitting_ops", "op_mutate", "op_construct", "isolation_sets",
                 "isolation_edits", "isolation_results_compared"]
 ASSUMPTIONS = ["the executable model of an operation is the same operation on a deep copy of its arguments (with the weapon's "
                "current stored zero) executed by a brand-new calculator of the same configuration",
@@ -98,8 +98,10 @@ def gen_ops(rng, n_shots, n_calcs, length):
             ops.append(["model", i, rng.choice(["multi", "plain", "multi_dicts", "multi_pooled", "multi_pooled"])])
         elif k < 0.91:
             ops.append(["fire", i, c, 60000.0, 6000.0, rng.random() < 0.5, 0.0])      # beyond reach: RangeError
-        elif k < 0.94:
+        elif k < 0.93:
             ops.append(["unit_error", i])
+        elif k < 0.955:
+            ops.append(["construct", i, rng.choice(["vacuum", "vacuum", "atmo", "sight", "wind"])])
         else:
             # use the shot, let the caller modify it, use it again with the same calculator
             r = rng.choice([150.0, 300.0, 600.0])
@@ -158,6 +160,26 @@ def perform(op, shot, calc, bcp=None):
         return g
     if kind == "unit_error":
         return lambda: shot.weapon.sight_height >> Unit.Degree
+    if kind == "construct":
+        # objects of the less used public classes are built (and a vacuum shot fired) next to the pooled shots
+        def h():
+            what = op[2]
+            if what == "vacuum":
+                vac = pb.Vacuum(Distance.Foot(1200.0), pb.Temperature.Celsius(5.0))
+                sh = pb.Shot(weapon=pb.Weapon(Distance.Inch(2.0)), ammo=pb.Ammo(DragModel(0.3, pb.TableG7), pb.Velocity.FPS(2500.0)),
+                             look_angle=pb.Angular.Degree(6.0), atmo=vac)
+                rows = list(Calculator().fire(sh, Distance.Foot(1500.0), Distance.Foot(500.0)))
+                return [(r.time, r.mach) for r in rows]
+            if what == "atmo":
+                a = pb.Atmo(Distance.Foot(3000.0), pb.Pressure.hPa(880.0), pb.Temperature.Celsius(-5.0), 60.0)
+                a.humidity = 0.3
+                return a.get_density_factor_and_mach_for_altitude(4000.0)
+            if what == "sight":
+                s = pb.Sight("SFP", Distance.Yard(100), pb.Angular.Mil(0.1), pb.Angular.Mil(0.2))
+                return tuple(s.get_adjustment(Distance.Yard(300), pb.Angular.Mil(1.0), pb.Angular.Mil(-0.5), 8.0))
+            w = pb.Wind(pb.Velocity.FPS(10.0), pb.Angular.Degree(45.0), max_distance_feet=900.0)
+            return (w.until_distance >> Distance.Foot, pb.Wind().until_distance >> Distance.Foot)
+        return h
     raise ValueError(kind)
 
 
@@ -310,6 +332,9 @@ def check_isolation(ctx, case):
                 mutate(["mutate", 0, what, case["k"]], sh, set_a)
                 ctx.count("isolation_edits")
             sh.atmo.humidity = case["humidity"]
+            if sh is set_a[0]:
+                # ... and an unrelated vacuum shot is built and fired next to them
+                perform(["construct", 0, "vacuum"], sh, None)()
             sh.relative_angle = pb.Angular.Degree(2.5)
             sh.cant_angle = pb.Angular.Degree(7.0)
             sh.ammo.powder_temp = pb.Temperature.Celsius(31.0)
